@@ -2,6 +2,7 @@ package web
 
 import (
 	"net/http"
+	"net/url"
 	"strings"
 
 	"github.com/gorilla/mux"
@@ -45,7 +46,14 @@ func headerMatch(req *http.Request, name string, value string) bool {
 
 // NewContext returns a Context for the given HTTP Request
 func NewContext(req *http.Request) (*Context, error) {
-	vars := mux.Vars(req)
+	// The router matches the encoded path, route variables arrive percent-encoded.
+	vars := make(map[string]string)
+	for k, v := range mux.Vars(req) {
+		if dv, err := url.PathUnescape(v); err == nil {
+			v = dv
+		}
+		vars[k] = v
+	}
 	ctx := &Context{
 		Vars:       vars,
 		MsgHub:     msgHub,
